@@ -140,6 +140,8 @@ type Exec struct {
 	BranchQueries int
 	BranchSliceHops int
 	Lazy bool
+	// LazyMath: no feasibility queries on branches inside the pure arithmetic packages (see isMathFn)
+	LazyMath bool
 	ModelHits int
 	models []*Model
 	BranchSecs float64
@@ -799,7 +801,12 @@ func (e *Exec) runFrame(f *Frame) (done []Outcome, more []*Frame) {
 			if f.forks[in] > e.Unwind {
 				return append(done, Outcome{Kind: OutError, St: f.st, Why: fmt.Sprintf("unwinding bound %d exceeded in %s", e.Unwind, f.fn)}), more
 			}
-			tOK, fOK := e.feasibleBoth(f.st, c)
+			tOK, fOK := true, true
+			if !(e.LazyMath && isMathFn(f.fn)) {
+				tOK, fOK = e.feasibleBoth(f.st, c)
+			} else if e.inInit {
+				unsupported("symbolic branch during package init")
+			}
 			switch {
 			case tOK && fOK:
 				st2 := f.st.Fork()
@@ -1050,4 +1057,24 @@ func (e *Exec) describe(st *State, v Value) string {
 		return "{" + strings.Join(parts, ", ") + "}"
 	}
 	return fmt.Sprintf("%T", v)
+}
+
+// isMathFn: functions of the pure arithmetic packages, whose branch outcomes merge at return; with LazyMath their
+// symbolic branches are explored on both sides without a feasibility query.
+func isMathFn(fn *ssa.Function) bool {
+	for fn.Parent() != nil {
+		fn = fn.Parent()
+	}
+	if fn.Pkg == nil {
+		if o := fn.Origin(); o != nil && o.Pkg != nil {
+			fn = o
+		} else {
+			return false
+		}
+	}
+	switch fn.Pkg.Pkg.Path() {
+	case "cosmossdk.io/math", "github.com/osmosis-labs/osmosis/osmomath", "math/big", "math/bits":
+		return true
+	}
+	return false
 }
